@@ -26,23 +26,29 @@ def sinsert (x : Nat) : List Nat → List Nat
 
 variable {α : Type} [DecidableEq α]
 
+/-- `if path in provides: raise …; provides[path] = target` -/
+def addOut (id : Nat) (a : Option (List (α × Nat))) (p : α) : Option (List (α × Nat)) :=
+  match a with
+  | none => none
+  | some m => if (alook p m).isSome then none else some (m ++ [(p, id)])
+
 /-- phase 1: `provides`; `none` = FileProvidedByMultipleTargetsError -/
 def buildProvides : List (Tgt α) → List (α × Nat) → Option (List (α × Nat))
   | [], acc => some acc
   | t :: ts, acc =>
-    match t.outs.foldl (fun (a : Option (List (α × Nat))) p =>
-        match a with
-        | none => none
-        | some m => if (alook p m).isSome then none else some (m ++ [(p, t.id)])) (some acc) with
+    match t.outs.foldl (addOut t.id) (some acc) with
     | none => none
     | some acc' => buildProvides ts acc'
 
+/-- one input path: a dependency on its producer, or an unresolved path -/
+def depStepG (provides : List (α × Nat)) (acc : List Nat × List α) (p : α) : List Nat × List α :=
+  match alook p provides with
+  | some prod => (sinsert prod acc.1, acc.2)
+  | none => (acc.1, if p ∈ acc.2 then acc.2 else acc.2 ++ [p])
+
 /-- phase 2 for one target: its dependency set (sorted ids) and its unresolved inputs -/
 def depsOf (provides : List (α × Nat)) (t : Tgt α) : List Nat × List α :=
-  t.ins.foldl (fun (acc : List Nat × List α) p =>
-    match alook p provides with
-    | some prod => (sinsert prod acc.1, acc.2)
-    | none => (acc.1, if p ∈ acc.2 then acc.2 else acc.2 ++ [p])) ([], [])
+  t.ins.foldl (depStepG provides) ([], [])
 
 /-- dependency lookup as a function (empty for unknown ids, like the `defaultdict`) -/
 def depFn (deps : List (Nat × List Nat)) (t : Nat) : List Nat := (alook t deps).getD []
